@@ -154,22 +154,17 @@ def plainValChar (c : Char) : Bool :=
 /-- the quoted-string scan of `Parse`/`Lookup`, started after the opening
 quote: `for i < len && tag[i] != '"' { if tag[i] == '\\' { i++ }; i++ }`, error
 when the end is reached.  Result: the text between the quotes, still escaped,
-and the text after the closing quote. -/
-def scanQuoted : List Char → Option (List Char × List Char)
-  | [] => none
-  | c :: r =>
+and the text after the closing quote.  `esc`: the previous rune was a backslash
+(the rune is stepped over whatever it is). -/
+def scanQ : Bool → List Char → Option (List Char × List Char)
+  | _, [] => none
+  | true, d :: r => (scanQ false r).map fun p => (d :: p.1, p.2)
+  | false, c :: r =>
     if c = '"' then some ([], r)
-    else if c = '\\' then
-      match r with
-      | [] => none
-      | d :: r' =>
-        match scanQuoted r' with
-        | some (b, rest) => some (c :: d :: b, rest)
-        | none => none
-    else
-      match scanQuoted r with
-      | some (b, rest) => some (c :: b, rest)
-      | none => none
+    else if c = '\\' then (scanQ true r).map fun p => (c :: p.1, p.2)
+    else (scanQ false r).map fun p => (c :: p.1, p.2)
+
+def scanQuoted (cs : List Char) : Option (List Char × List Char) := scanQ false cs
 
 inductive Unq where
   | ok (v : List Char)
@@ -177,25 +172,23 @@ inductive Unq where
   | unsupported    -- outside the modelled fragment
 deriving DecidableEq, Repr
 
-/-- `strconv.Unquote` on `"body"`, left to right, first problem wins. -/
-def unquoteBody : List Char → Unq
-  | [] => .ok []
-  | c :: r =>
-    if c = '\\' then
-      match r with
-      | d :: r' =>
-        if d = '"' ∨ d = '\\' then
-          match unquoteBody r' with
-          | .ok v => .ok (d :: v)
-          | e => e
-        else .unsupported
-      | [] => .bad
+def Unq.cons (c : Char) : Unq → Unq
+  | .ok v => .ok (c :: v)
+  | e => e
+
+/-- `strconv.Unquote` on `"body"`, left to right, first problem wins.  `esc`:
+the previous rune was a backslash. -/
+def unq : Bool → List Char → Unq
+  | false, [] => .ok []
+  | true, [] => .bad
+  | true, d :: r => if d = '"' ∨ d = '\\' then (unq false r).cons d else .unsupported
+  | false, c :: r =>
+    if c = '\\' then unq true r
     else if c = '\n' then .bad
-    else if plainValChar c then
-      match unquoteBody r with
-      | .ok v => .ok (c :: v)
-      | e => e
+    else if plainValChar c then (unq false r).cons c
     else .unsupported
+
+def unquoteBody (cs : List Char) : Unq := unq false cs
 
 /-- one round of the scanner shared by `structtag.Parse` and
 `reflect.StructTag.Lookup`. -/
@@ -205,21 +198,29 @@ inductive Scan where
   | pair (key body rest : List Char)
 deriving DecidableEq, Repr
 
+/-- after the key (`i` runes long, `i > 0`): `tag[i]` must be a colon followed
+by something, and that something must be a double quote. -/
+def scanAfterKey (key : List Char) : List Char → Scan
+  | [] => .bad .tagSyntax                     -- i+1 >= len(tag)
+  | [_] => .bad .tagSyntax                    -- i+1 >= len(tag)
+  | c :: d :: r =>
+    if c ≠ ':' then .bad .tagSyntax
+    else if d ≠ '"' then .bad .tagValueSyntax
+    else
+      match scanQuoted r with
+      | none => .bad .tagValueSyntax
+      | some (body, rest) => .pair key body rest
+
+/-- "Scan to colon": the key is the longest prefix of key bytes. -/
+def scanKey (t : List Char) : Scan :=
+  let key := t.takeWhile keyChar
+  if key.isEmpty then .bad .tagKeySyntax      -- i == 0
+  else scanAfterKey key (t.dropWhile keyChar)
+
+/-- "Skip leading space", stop when nothing is left. -/
 def scanPair (cs : List Char) : Scan :=
-  match cs.dropWhile (fun c => c = ' ') with
-  | [] => .done
-  | t =>
-    match t.span keyChar with
-    | ([], _) => .bad .tagKeySyntax                 -- i == 0
-    | (_ :: _, []) => .bad .tagSyntax               -- i+1 >= len(tag)
-    | (_ :: _, [_]) => .bad .tagSyntax              -- i+1 >= len(tag)
-    | (key@(_ :: _), c :: d :: r) =>
-      if c ≠ ':' then .bad .tagSyntax
-      else if d ≠ '"' then .bad .tagValueSyntax
-      else
-        match scanQuoted r with
-        | none => .bad .tagValueSyntax
-        | some (body, rest) => .pair key body rest
+  let t := cs.dropWhile (fun c => c = ' ')
+  if t.isEmpty then .done else scanKey t
 
 /-- the `for tag != ""` loop of `structtag.Parse`.  The fuel is the length of
 the text plus one; running out of it (`hang`) and the empty result of
